@@ -154,6 +154,30 @@ static void run_script(const char* path) {
       vf_log_long("lo", (long)a); vf_log_raw(",", 1); vf_log_long("hi", (long)b); vf_log_raw(",", 1); vf_log_long("val", v);
       vf_log_raw("}", 1); vf_row_end();
     }
+    else if (!strcmp(op, "badidx")) {
+      /* the setters / getters with an option index outside the table: nothing may be written (the table and the bytes around it are
+         compared before and after), the getter answers 0 */
+      sscanf(line, "%*s %d %lld", &i, &a);
+#if (MI_DEBUG > 0)
+      continue;      /* (debug builds assert that the index is valid: API misuse is reported there by abort, outside the claim) */
+#endif
+#if defined(__SANITIZE_ADDRESS__)
+      static unsigned char before[sizeof(options)], after[sizeof(options)];      /* (the sanitizer itself watches the bytes around the table) */
+      unsigned char* lo = (unsigned char*)options;
+#else
+      static unsigned char before[sizeof(options) + 128], after[sizeof(options) + 128];
+      unsigned char* lo = (unsigned char*)options - 64;
+#endif
+      memcpy(before, lo, sizeof(before));
+      long got = mi_option_get((mi_option_t)i);
+      mi_option_set((mi_option_t)i, (long)a); mi_option_set_default((mi_option_t)i, (long)a);
+      mi_option_enable((mi_option_t)i); mi_option_disable((mi_option_t)i); mi_option_set_enabled((mi_option_t)i, a != 0); mi_option_set_enabled_default((mi_option_t)i, a != 0);
+      bool en = mi_option_is_enabled((mi_option_t)i); size_t sz = mi_option_get_size((mi_option_t)i); long cl = mi_option_get_clamp((mi_option_t)i, 3, 9);
+      memcpy(after, lo, sizeof(after));
+      vf_logf("{\"k\":\"badidx\",\"idx\":%d,\"same\":%s,\"got\":%ld,\"en\":%s,\"sz\":%zu,\"clamp\":%ld}", i, memcmp(before, after, sizeof(before)) == 0 ? "true" : "false",
+              got, en ? "true" : "false", sz, cl);
+      vf_row_end();
+    }
     else if (!strcmp(op, "reset")) {
       /* emulate a fresh process for the option table only: restore the pristine table (every entry UNINIT again) */
       memcpy(options, vf_pristine, sizeof(options));
